@@ -340,6 +340,16 @@ func emitLean(a *analysis, dir string) {
 		fmt.Fprintf(&b, "  (%s, %v, %v, %v, %s)%s\n", q(lc.callee), lc.claimed, lc.held, lc.ctor, q(lc.at), comma(i, len(lcs)))
 	}
 	b.WriteString("]\n\n")
+	b.WriteString("/-- every wg.Add: (class, function, the object's token is held, the object is still under construction, the object has a token, position) -/\ndef wgAdds : List (String × String × Bool × Bool × Bool × String) := [\n")
+	was := []wgAdd{}
+	for w := range a.wgAdds {
+		was = append(was, w)
+	}
+	sort.Slice(was, func(i, j int) bool { return fmt.Sprint(was[i]) < fmt.Sprint(was[j]) })
+	for i, w := range was {
+		fmt.Fprintf(&b, "  (%s, %s, %v, %v, %v, %s)%s\n", q(w.class), q(w.fn), w.token, w.ctor, w.hasToken, q(w.at), comma(i, len(was)))
+	}
+	b.WriteString("]\n\n")
 	b.WriteString("/-- where the repository token (wgBlock) is taken: (function, the take is an arm of a select that also waits for ctx.Done()) -/\ndef tokenTakes : List (String × Bool) := [")
 	tts := []string{}
 	for t := range a.tokenTakes {
@@ -417,14 +427,33 @@ func write(path, content string) {
 }
 
 func emitSites(a *analysis, path string) {
-	type out struct {
-		Sites   map[string]string `json:"sites"`
-		Edges   [][2]string       `json:"edges"`
-		Classes []string          `json:"classes"`
+	type wedge struct {
+		From   string `json:"from"`
+		To     string `json:"to"`
+		HeldAt string `json:"heldAt"`
+		AcqAt  string `json:"acqAt"`
+		Root   string `json:"root"`
+		Chain  string `json:"chain"`
 	}
-	o := out{Sites: a.sites, Classes: a.sortedClasses()}
+	type out struct {
+		Repo      string            `json:"repo"`
+		Sites     map[string]string `json:"sites"`
+		Edges     [][2]string       `json:"edges"`
+		Witnesses []wedge           `json:"witnesses"`
+		Classes   []string          `json:"classes"`
+		Mutexes   []string          `json:"mutexes"`
+		Stats     map[string]int    `json:"stats"`
+	}
+	o := out{Repo: repo, Sites: a.sites, Classes: a.sortedClasses(), Stats: map[string]int{
+		"functions": len(decls), "threads": len(a.roots), "edges": len(a.edges), "accesses": len(a.accesses), "unrecognised": len(a.unrecs)}}
+	for c := range mutexClasses {
+		o.Mutexes = append(o.Mutexes, c)
+	}
+	sort.Strings(o.Mutexes)
 	for _, e := range a.sortedEdges() {
 		o.Edges = append(o.Edges, [2]string{e.from, e.to})
+		w := a.edges[e]
+		o.Witnesses = append(o.Witnesses, wedge{e.from, e.to, w.heldAt, w.acqAt, w.root, w.chain})
 	}
 	bs, _ := json.MarshalIndent(o, "", " ")
 	write(path, string(bs))
